@@ -777,3 +777,16 @@ def run(idx, rep, tier):
     r4(k)
     r5(k)
     r6(k)
+    from .shared import communicate_resumes
+    rep.rule('C09.R7', 'wait() / communicate() re-run the resume test after '
+             'lifting the buffer limit (= clause of C08.R9): otherwise a '
+             'channel paused by unread output never processes the peer\'s '
+             'CLOSE and wait() never returns')
+    communicate_resumes(k, 'C09.R7')
+    # C09.R8: shared rule
+    from .c20 import r4 as _c20r4
+    rep.rule('C09.R8', 'early data and EOF of a local forward (= C20.R4): input and an EOF that arrived while the channel was being opened are both replayed, so the destination sees end of input and the pair can finish')
+    _before = len(rep.obligations)
+    _c20r4(k)
+    for o in rep.obligations[_before:]:
+        o.rule = 'C09.R8'
